@@ -124,6 +124,8 @@ type Prop struct {
 	Bound func(tier string) string
 	// Setup runs once per worker before any case.
 	Setup func(tier string)
+	// Digest, when set, is computed in two fresh processes by the coordinator; the lines must agree.
+	Digest func() []string
 	// Teardown runs once per worker after the last case.
 	Teardown func()
 	// Post may add coordinator-level results after the merge.
